@@ -203,7 +203,7 @@ def fault_sites(events, key=None):
             continue
         c = FAULT_CLASS.get(ev["call"], ev["call"])
         if c in ("open", "read", "write", "pwrite", "fsync", "link", "unlink", "stat", "fstat", "utimes", "close",
-                 "ftruncate", "rename", "flock", "mkdir", "opendir", "lseek", "chdir", "fork", "pipe"):
+                 "ftruncate", "rename", "flock", "mkdir", "opendir", "lseek", "chdir", "fork", "pipe", "malloc"):
             k = cnt.get((ev["pid"], c), 0)
             cnt[(ev["pid"], c)] = k + 1
             out.append((c, k, ev))
